@@ -12,8 +12,10 @@ import sys
 import time
 
 VERIF = "/verif"
-REPO = "/repo"
-BIN = os.path.join(VERIF, "target/release/garden-verif")
+# The registered checks always test /repo itself.  tools/check_tree.sh points these at a
+# scratch copy of the repository (a seeded change under evaluation) and its own build.
+REPO = os.environ.get("VERIF_REPO", "/repo")
+BIN = os.environ.get("VERIF_BIN", os.path.join(VERIF, "target/release/garden-verif"))
 # Background sweeps (vp run) set VERIF_SCRATCH so that they do not overwrite the
 # evidence and replay files of the registered checks.
 _SCRATCH = os.environ.get("VERIF_SCRATCH")
